@@ -343,9 +343,12 @@ RequestedId(step) ==
   ELSE IF a.id[1].rep = "pl" THEN
        (* a string identifier is read in the scope of the attached bundle (which carries  *)
        (* the argument's registered namespaces), then in the document's                    *)
+       (* - where the argument's own tables do not decide, by what the attached bundle itself    *)
+       (* resolves the spelling to (logged as den: a prefix it renamed is private state); for a  *)
+       (* document argument that is not observable and the clauses do not apply                   *)
        LET own == LookupPrefix(step.pre.ns[a.arg], a.id[1].p)
-           up  == LookupPrefix(step.pre.ns[a.h], a.id[1].p)
-       IN IF own # NONE THEN own \o a.id[1].l ELSE IF up # NONE THEN up \o a.id[1].l ELSE NONE
+       IN IF own # NONE THEN own \o a.id[1].l
+          ELSE IF "den" \in DOMAIN step THEN step.den ELSE NONE
   ELSE NONE
 MustRefuse(step) ==
   LET a == step.op
